@@ -134,47 +134,75 @@ Proof. intros H. apply existsb_exists. exists id. split; [exact H | apply Z.eqb_
 Lemma existsb_eqb_notin id l : ~ In id l -> existsb (Z.eqb id) l = false.
 Proof. intros H. apply existsb_false. intros y Hy. apply Z.eqb_neq. intros ->. exact (H Hy). Qed.
 
-Lemma sloop_gen f p fs vs0 flags :
+(* a third kind of entry: the id of a declared field with another wire type *)
+Definition gconflict_ok (f : nat) (p : proto) (fs : list tfield) (vs0 : list tval) (e : gentry) : Prop :=
+  exists i fd' x0, nth_error fs i = Some fd' /\ fld_id fd' = fld_id (g_fd e) /\ nth_error vs0 i = Some x0 /\ fskip fd' x0 = true /\
+    type_of (fld_ty fd') <> type_of (fld_ty (g_fd e)) /\
+    (fskip (g_fd e) (g_x e) = false -> coalesce p (type_of (fld_ty (g_fd e))) = false ->
+       forall rest, skip f p (type_of (fld_ty (g_fd e))) (g_body e ++ rest) = TOk rest).
+Definition is_conflict (fs : list tfield) (e : gentry) : bool :=
+  negb (fskip (g_fd e) (g_x e)) &&
+  existsb (fun fd' => (fld_id fd' =? fld_id (g_fd e)) && negb (type_of (fld_ty fd') =? type_of (fld_ty (g_fd e)))) fs.
+Lemma no_conflict_known fs i fd : NoDup (map fld_id fs) -> nth_error fs i = Some fd ->
+  existsb (fun fd' => (fld_id fd' =? fld_id fd) && negb (type_of (fld_ty fd') =? type_of (fld_ty fd))) fs = false.
+Proof.
+  intros Hnd Hi. apply existsb_false. intros fd' Hfd'. destruct (Z.eqb_spec (fld_id fd') (fld_id fd)) as [E|E]; [|reflexivity].
+  apply In_nth_error in Hfd'. destruct Hfd' as [i' Hi']. pose proof (NoDup_uniq fs i fd Hnd Hi i' fd' Hi' E). subst i'.
+  rewrite Hi in Hi'. inversion Hi'; subst fd'. rewrite Z.eqb_refl. reflexivity.
+Qed.
+Lemma no_conflict_unknown fs id ty : ~ In id (map fld_id fs) ->
+  existsb (fun fd' => (fld_id fd' =? id) && negb (type_of (fld_ty fd') =? ty)) fs = false.
+Proof.
+  intros Hn. apply existsb_false. intros fd' Hfd'. replace (fld_id fd' =? id) with false; [reflexivity|].
+  symmetry. apply Z.eqb_neq. intros E. apply Hn. rewrite <- E. apply in_map. exact Hfd'.
+Qed.
+
+Lemma sloop_gen3 f p fs vs0 flags :
   NoDup (map fld_id fs) -> (forall y, In y (map fld_id fs) -> 1 <= y) ->
   forall l last K nf seen rest,
-  (forall e, In e l -> gentry_ok f p fs vs0 e) ->
+  (forall e, In e l -> gentry_ok f p fs vs0 e \/ (1 <= fld_id (g_fd e) < 2 ^ 15 /\ gconflict_ok f p fs vs0 e)) ->
   asc last (map eid l) -> 0 <= last ->
   (length (gen_go p l last) <= K)%nat ->
   sloop f p fs flags K (gen_go p l last ++ rest) last nf (cur_of (map eid l) fs vs0) seen =
+    if has_flag flags f_strict && existsb (is_conflict fs) l then TErr EMismatch else
     if smissing fs (seen_after fs l seen) then TErr EMissing else TOk (TvStruct (cur_of [] fs vs0), rest).
 Proof.
   intros Hnd Hids.
   induction l as [|e l' IHl]; intros last K nf seen rest Hent Hasc Hlast HK.
-  - cbn [gen_go] in *. pose proof (stop_length p) as Hsl. destruct K as [|K']; [lia|].
+  - cbn [gen_go existsb] in *. rewrite andb_false_r. pose proof (stop_length p) as Hsl. destruct K as [|K']; [lia|].
     rewrite sloop_S, (rspec_full _ _ _ rest (r_field_stop_spec p)).
     cbv iota beta. change (0 =? c_STOP) with true. cbv iota. reflexivity.
-  - pose proof (Hent e (or_introl eq_refl)) as [Hid Hcase].
-    assert (Hent' : forall e', In e' l' -> gentry_ok f p fs vs0 e') by (intros e' He'; apply Hent; right; exact He').
+  - assert (Hid : 1 <= fld_id (g_fd e) < 2 ^ 15) by (destruct (Hent e (or_introl eq_refl)) as [[H _]|[H _]]; exact H).
+    pose proof (Hent e (or_introl eq_refl)) as Hcase.
+    assert (Hent' : forall e', In e' l' -> gentry_ok f p fs vs0 e' \/ (1 <= fld_id (g_fd e') < 2 ^ 15 /\ gconflict_ok f p fs vs0 e')) by (intros e' He'; apply Hent; right; exact He').
     cbn [map asc] in Hasc. destruct Hasc as [Hlt Hasc]. change (eid e) with (fld_id (g_fd e)) in *.
-    cbn [gen_go seen_after map] in *. change (eid e) with (fld_id (g_fd e)).
+    cbn [gen_go seen_after map existsb] in *. change (eid e) with (fld_id (g_fd e)).
     destruct (fskip (g_fd e) (g_x e)) eqn:Es.
     + (* not written *)
+      replace (is_conflict fs e) with false by (unfold is_conflict; rewrite Es; reflexivity). cbn [orb].
       replace (cur_of (fld_id (g_fd e) :: map eid l') fs vs0) with (cur_of (map eid l') fs vs0).
       * apply IHl; try assumption. eapply asc_weaken; [|exact Hasc]. lia.
-      * symmetry. destruct Hcase as [[i [Hi1 [Hi2 _]]]|[Hnin _]].
+      * symmetry. destruct Hcase as [[_ [[i [Hi1 [Hi2 _]]]|[Hnin _]]]|[_ [i [fd' [x0 [Hi1 [Heq [Hi2 [Hsk0 _]]]]]]]]].
         -- eapply cur_of_skip; eauto. eapply NoDup_uniq; eauto.
         -- apply cur_of_irrel. intros fd Hfd Heq. apply Hnin. rewrite <- Heq. apply in_map. exact Hfd.
+        -- rewrite <- Heq. eapply cur_of_skip; eauto. eapply NoDup_uniq; eauto.
     + (* written *)
       cbv zeta in *.
       set (ty := type_of (fld_ty (g_fd e))) in *.
       set (wty := if coalesce p ty && deref_bool (g_x e) then c_TRUE else ty) in *.
       set (B := if coalesce p ty then [] else g_body e) in *.
       assert (Hty : 2 <= ty <= 12) by apply type_of_range.
-      assert (Hwty : 1 <= wty <= 12) by (unfold wty, c_TRUE; destruct (_ && _); lia).
+      assert (Hwty : 1 <= wty <= 12) by (unfold wty, c_TRUE; destruct (coalesce p ty && deref_bool (g_x e)); lia).
       destruct (ghdr_spec p (g_long e) last (fld_id (g_fd e)) wty ltac:(lia) ltac:(lia) Hwty) as [rid [isd [Hh Hrid]]].
       pose proof (ghdr_len p (g_long e) last (fld_id (g_fd e)) wty) as Hhl.
       rewrite !app_length in HK. destruct K as [|K']; [lia|].
       rewrite sloop_S. rewrite <- !app_assoc. rewrite (Hh _).
       cbv iota beta. replace (wty =? c_STOP) with false by (unfold c_STOP; lia).
       cbv zeta. rewrite Hrid.
-      destruct Hcase as [[i [Hi1 [Hi2 Hk]]]|[Hnin Hsk]].
+      destruct Hcase as [[_ [[i [Hi1 [Hi2 Hk]]]|[Hnin Hsk]]]|[_ [i [fd' [x0 [Hi1 [Heq [Hi2 [Hsk0 [Htne Hsk]]]]]]]]]].
       * (* a declared field *)
-        destruct (Hk eq_refl) as [Hok [Hwf Hbody]].
+        replace (is_conflict fs e) with false by (unfold is_conflict; rewrite (no_conflict_known fs i _ Hnd Hi1); symmetry; apply andb_false_r). cbn [orb].
+        destruct (Hk Es) as [Hok [Hwf Hbody]].
         pose proof (NoDup_uniq fs i (g_fd e) Hnd Hi1) as Hu.
         assert (Hin : In (fld_id (g_fd e)) (map fld_id fs)) by (apply in_map; eapply nth_error_In; eauto).
         pose proof (slot_bounds fs (fld_id (g_fd e)) Hids Hin) as Hsb.
@@ -199,9 +227,10 @@ Proof.
         -- cbn [andb] in *. rewrite Z.eqb_refl. cbn [negb andb].
            replace (is_compact p && ((ty =? c_TRUE) || (ty =? c_BOOL))) with false.
            2:{ destruct p; [reflexivity|]. cbn [coalesce] in Ec. rewrite Ec. replace (ty =? c_TRUE) with false by (unfold c_TRUE; lia). reflexivity. }
-           rewrite Hold. rewrite (Hbody eq_refl). cbn [dont_expect_eof tbind]. rewrite Hstep.
+           rewrite Hold. rewrite (Hbody Ec). cbn [dont_expect_eof tbind]. rewrite Hstep.
            apply IHl; try assumption; lia.
       * (* a field the target does not declare *)
+        replace (is_conflict fs e) with false by (unfold is_conflict; rewrite (no_conflict_unknown fs _ _ Hnin); symmetry; apply andb_false_r). cbn [orb].
         rewrite (existsb_eqb_notin _ _ Hnin).
         replace (if (fld_id (g_fd e) - s_minID fs <? 0) || (fld_id (g_fd e) - s_minID fs >=? s_maxID fs - s_minID fs + 1)
                  then None else lookup_go (fld_id (g_fd e)) fs 0) with (@None (nat * tfield)).
@@ -216,7 +245,57 @@ Proof.
         -- cbn [andb] in *.
            replace (((ty =? c_TRUE) || (ty =? c_BOOL)) && is_compact p) with false.
            2:{ destruct p; [rewrite andb_false_r; reflexivity|]. cbn [coalesce] in Ec. rewrite Ec. replace (ty =? c_TRUE) with false by (unfold c_TRUE; lia). reflexivity. }
-           rewrite (Hsk eq_refl eq_refl). cbn [dont_expect_eof tbind]. apply IHl; try assumption; lia.
+           rewrite (Hsk Es Ec). cbn [dont_expect_eof tbind]. apply IHl; try assumption; lia.
+      * (* the id of a declared field with another wire type *)
+        assert (Hin : In (fld_id (g_fd e)) (map fld_id fs)) by (rewrite <- Heq; apply in_map; eapply nth_error_In; eauto).
+        replace (is_conflict fs e) with true.
+        2:{ symmetry. unfold is_conflict. rewrite Es. cbn [negb andb]. apply existsb_exists. exists fd'. split; [eapply nth_error_In; eauto|].
+            rewrite Heq, Z.eqb_refl. cbn [andb]. apply negb_true_iff. apply Z.eqb_neq. exact Htne. }
+        cbn [orb]. rewrite andb_true_r.
+        pose proof (NoDup_uniq fs i fd' Hnd Hi1) as Hu.
+        pose proof (slot_bounds fs (fld_id (g_fd e)) Hids Hin) as Hsb.
+        replace ((fld_id (g_fd e) - s_minID fs <? 0) || (fld_id (g_fd e) - s_minID fs >=? s_maxID fs - s_minID fs + 1)) with false by lia.
+        rewrite <- Heq at 1. rewrite (lookup_go_found fs O i fd' Hi1 Hu). cbn [Nat.add]. cbv iota beta.
+        replace (_ / 64 >=? _ / 64 + 1) with false by (symmetry; rewrite Z.geb_leb; apply Z.leb_gt; dmlia).
+        rewrite (existsb_eqb_in _ _ Hin).
+        pose proof (type_of_range (fld_ty fd')) as Hfexp. fold ty in Htne.
+        replace (negb (wty =? type_of (fld_ty fd')) && negb ((wty =? c_TRUE) && (type_of (fld_ty fd') =? c_BOOL))) with true.
+        2:{ unfold wty. destruct p; cbn [coalesce andb]; unfold c_TRUE, c_BOOL in *.
+            - lia.
+            - destruct (ty =? 2) eqn:E2; cbn [andb]; [destruct (deref_bool (g_x e))|]; lia. }
+        destruct (has_flag flags f_strict); [reflexivity|]. cbn [andb].
+        replace (cur_of (fld_id (g_fd e) :: map eid l') fs vs0) with (cur_of (map eid l') fs vs0).
+        2:{ symmetry. rewrite <- Heq. eapply cur_of_skip; eauto. }
+        unfold wty, B in *. clear wty B. destruct (coalesce p ty) eqn:Ec.
+        -- destruct p; [discriminate Ec|]. cbn [coalesce] in Ec. assert (Ety : ty = c_BOOL) by lia.
+           cbn [andb is_compact app length] in *. rewrite Ety in *.
+           replace ((((if deref_bool (g_x e) then c_TRUE else c_BOOL) =? c_TRUE) || ((if deref_bool (g_x e) then c_TRUE else c_BOOL) =? c_BOOL)) && true) with true by (destruct (deref_bool (g_x e)); reflexivity).
+           cbn [dont_expect_eof tbind]. apply IHl; try assumption; lia.
+        -- cbn [andb] in *.
+           replace (((ty =? c_TRUE) || (ty =? c_BOOL)) && is_compact p) with false.
+           2:{ destruct p; [rewrite andb_false_r; reflexivity|]. cbn [coalesce] in Ec. rewrite Ec. replace (ty =? c_TRUE) with false by (unfold c_TRUE; lia). reflexivity. }
+           rewrite (Hsk Es Ec). cbn [dont_expect_eof tbind]. apply IHl; try assumption; lia.
+Qed.
+
+Lemma no_conflict_all f p fs vs0 l : NoDup (map fld_id fs) -> (forall e, In e l -> gentry_ok f p fs vs0 e) -> existsb (is_conflict fs) l = false.
+Proof.
+  intros Hnd H. apply existsb_false. intros e He. destruct (H e He) as [_ [[i [Hi1 _]]|[Hnin _]]]; unfold is_conflict.
+  - rewrite (no_conflict_known fs i _ Hnd Hi1). apply andb_false_r.
+  - rewrite (no_conflict_unknown fs _ _ Hnin). apply andb_false_r.
+Qed.
+Lemma sloop_gen f p fs vs0 flags :
+  NoDup (map fld_id fs) -> (forall y, In y (map fld_id fs) -> 1 <= y) ->
+  forall l last K nf seen rest,
+  (forall e, In e l -> gentry_ok f p fs vs0 e) ->
+  asc last (map eid l) -> 0 <= last ->
+  (length (gen_go p l last) <= K)%nat ->
+  sloop f p fs flags K (gen_go p l last ++ rest) last nf (cur_of (map eid l) fs vs0) seen =
+    if smissing fs (seen_after fs l seen) then TErr EMissing else TOk (TvStruct (cur_of [] fs vs0), rest).
+Proof.
+  intros Hnd Hids l last K nf seen rest Hent Hasc Hlast HK.
+  rewrite (sloop_gen3 f p fs vs0 flags Hnd Hids l last K nf seen rest); try assumption.
+  - rewrite (no_conflict_all f p fs vs0 l Hnd Hent), andb_false_r. reflexivity.
+  - intros e He. left. apply Hent. exact He.
 Qed.
 
 (* ====================================================================== *)
@@ -619,10 +698,10 @@ Proof.
     rewrite Hi3 in *. unfold fdec. destruct (g_fd e) as [id fl0 ft] eqn:Efd. cbn [alt_body fld_flags fld_ty] in *.
     destruct (has_flag fl0 f_enum) eqn:Ee.
     + rewrite (Hen eq_refl) in *. destruct (g_x e); try discriminate Hwft. cbn [tval_wf] in Hwft. cbn [dval].
-      pose proof (rspec_full _ _ _ rest0 (r_i32_spec PCompact z ltac:(lia))) as H32. cbn [w_i32] in H32. unfold varint in H32.
+      pose proof (rspec_full _ _ _ rest0 (r_i32_spec PCompact z ltac:(clear - Hwft; lia))) as H32. cbn [w_i32] in H32. unfold varint in H32.
       unfold s_i32. rewrite H32. reflexivity.
     + pose proof (proj1 (Forall_forall _ fs) HP _ (nth_error_In _ _ Hi1)) as IHt. cbn [fld_ty] in IHt.
-      apply IHt; try assumption. lia.
+      apply IHt; try assumption. clear - Hbl HDe Hf. lia.
 Qed.
 
 Theorem mainA_all : forall t, mainA t.
@@ -871,7 +950,7 @@ Proof.
       set (ty := type_of (fld_ty (g_fd e))) in *.
       set (wty := if coalesce p ty && deref_bool (g_x e) then c_TRUE else ty) in *.
       assert (Hty : 2 <= ty <= 12) by apply type_of_range.
-      assert (Hwty : 1 <= wty <= 12) by (unfold wty, c_TRUE; destruct (_ && _); lia).
+      assert (Hwty : 1 <= wty <= 12) by (unfold wty, c_TRUE; destruct (coalesce p ty && deref_bool (g_x e)); lia).
       destruct (ghdr_spec p (g_long e) last (fld_id (g_fd e)) wty ltac:(lia) ltac:(lia) Hwty) as [rid [isd [Hh Hrid]]].
       pose proof (ghdr_len p (g_long e) last (fld_id (g_fd e)) wty) as Hhl.
       rewrite !app_length in HK. destruct K as [|K']; [lia|].
@@ -1137,6 +1216,8 @@ Proof.
   intros Hfd Hr Hn. apply existsb_exists. exists fd. split; [exact Hfd|]. rewrite Hr, (existsb_eqb_notin _ _ Hn). reflexivity.
 Qed.
 
+Lemma nth_error_mid {A} (l1 l2 : list A) a : nth_error (l1 ++ a :: l2) (length l1) = Some a.
+Proof. rewrite nth_error_app2 by lia. rewrite Nat.sub_diag. reflexivity. Qed.
 (* the encoder's fields (fs1 ++ fs2) seen from the target (fs1 ++ fd :: fs2) *)
 Lemma remove_case {A B} (fs1 fs2 : list A) (fd : A) (vs1 vs2 : list B) (x0 : B) i a : length vs1 = length fs1 ->
   nth_error (fs1 ++ fs2) i = Some a ->
@@ -1204,7 +1285,238 @@ Proof.
   apply Hin in He0. destruct (mk_encs_in p _ _ e0 He0) as [i [Hi1 _]].
   destruct (remove_case fs1 fs2 fd vs1 vs2 (TvPtr None) i _ Hlen Hi1) as [j [Hne [Hj _]]].
   unfold lift, g_fd in Heq. cbn [fst] in Heq.
-  assert (Hfd : nth_error (fs1 ++ fd :: fs2) (length fs1) = Some fd) by (rewrite nth_error_app2 by lia; rewrite Nat.sub_diag; reflexivity).
+  pose proof (nth_error_mid fs1 fs2 fd) as Hfd.
   pose proof (NoDup_uniq _ _ _ Hnd Hfd j (fst e0) Hj ltac:(lia)). lia.
 Qed.
 
+
+(* ====================================================================== *)
+(* ---------- the decoded slots up to tnorm ---------- *)
+Definition fnorm_ok (fd : tfield) (x : tval) : Prop := ty_ok (fld_ty fd) = true /\ tval_wf (fld_ty fd) x = true.
+Lemma field_norm fd x : fnorm_ok fd x ->
+  tnorm (fld_ty fd) (if fskip fd x then zero_of (fld_ty fd) else dval (fld_ty fd) x) = tnorm (fld_ty fd) x.
+Proof.
+  intros [Hok Hwf]. destruct (fskip fd x) eqn:Es; [|apply dval_norm; assumption].
+  unfold fskip in Es. apply orb_true_iff in Es. destruct Es as [Es|Es].
+  - destruct x; try discriminate Es. destruct o; [discriminate Es|]. destruct (fld_ty fd); try discriminate Hwf. reflexivity.
+  - apply andb_true_iff in Es. destruct Es as [_ Es]. apply zero_norm; assumption.
+Qed.
+Lemma cur_norm_good fs vs : Forall2 fnorm_ok fs vs -> tnorm_fields fs (cur_of [] fs vs) = tnorm_fields fs vs.
+Proof.
+  induction 1 as [|fd x fr vr Hg HF IH]; [reflexivity|]. destruct fd as [id fl ft].
+  cbn [cur_of tnorm_fields existsb orb]. rewrite IH. f_equal. apply (field_norm (TField id fl ft) x Hg).
+Qed.
+Lemma cur_norm_split fs1 fd fs2 : forall vs1 vs2, Forall2 fnorm_ok fs1 vs1 -> Forall2 fnorm_ok fs2 vs2 ->
+  tnorm_fields (fs1 ++ fd :: fs2) (cur_of [] (fs1 ++ fd :: fs2) (vs1 ++ TvPtr None :: vs2)) =
+  tnorm_fields (fs1 ++ fd :: fs2) (vs1 ++ zero_of (fld_ty fd) :: vs2).
+Proof.
+  intros vs1 vs2 H1 H2. induction H1 as [|fd1 x fr vr Hg HF IH].
+  - destruct fd as [id fl ft]. cbn [app cur_of tnorm_fields existsb orb fld_ty]. rewrite (cur_norm_good fs2 vs2 H2). reflexivity.
+  - destruct fd1 as [id1 fl1 ft1]. cbn [app cur_of tnorm_fields existsb orb]. rewrite IH. f_equal. apply (field_norm (TField id1 fl1 ft1) x Hg).
+Qed.
+Lemma fgood_norm fs vs : Forall2 fgood fs vs -> Forall2 fnorm_ok fs vs.
+Proof. induction 1 as [|fd x fr vr [_ [Hok [Hwf _]]] HF IH]; constructor; [split; assumption | exact IH]. Qed.
+
+Lemma t_absent_optional : t_absent_optional_statement.
+Proof.
+  intros p fs1 fd fs2 vs1 vs2 fuel Hok Hlen Hwf Hreq Hf. unfold TMarshal, TUnmarshal in *.
+  rewrite tdepth_struct_eq in Hf. destruct fuel as [|f]; [clear - Hf; lia|].
+  assert (Hf' : (length (enc p (ThStruct (fs1 ++ fs2)) (TvStruct (vs1 ++ vs2))) + fdepth (fs1 ++ fd :: fs2) <= f)%nat) by (clear - Hf; lia).
+  pose proof (ty_ok_struct_remove _ _ _ Hok) as Hoke.
+  destruct (struct_good (fs1 ++ fs2) (vs1 ++ vs2) Hoke Hwf (all_mainP _)) as [Hnde HFe].
+  destruct (ty_ok_struct_app fs1 fs2 Hoke) as [Hok1 Hok2].
+  pose proof Hwf as Hwf'. rewrite wf_struct_eq in Hwf'. destruct (wf_fields_app fs1 fs2 vs1 vs2 Hlen Hwf') as [Hwf1 Hwf2].
+  rewrite <- wf_struct_eq in Hwf1, Hwf2.
+  destruct (struct_good fs1 vs1 Hok1 Hwf1 (all_mainP _)) as [_ HF1].
+  destruct (struct_good fs2 vs2 Hok2 Hwf2 (all_mainP _)) as [_ HF2].
+  exists (TvStruct (cur_of [] (fs1 ++ fd :: fs2) (vs1 ++ TvPtr None :: vs2))). split.
+  - rewrite dec_struct_eq, zero_struct_eq. rewrite <- (app_nil_r (enc p _ _)).
+    rewrite (missing_setup p fs1 fd fs2 vs1 vs2 f 0 [] Hok Hlen Hwf Hf').
+    rewrite smissing_false; [reflexivity|]. intros fd' Hfd' Er.
+    assert (Hin' : In fd' (fs1 ++ fs2)).
+    { apply in_app_or in Hfd'. apply in_or_app. destruct Hfd' as [H|[H|H]]; [left; exact H | subst fd'; congruence | right; exact H]. }
+    apply In_nth_error in Hin'. destruct Hin' as [i Hi].
+    assert (Hlene : length (vs1 ++ vs2) = length (fs1 ++ fs2)) by (symmetry; eapply Forall2_len; eauto).
+    destruct (nth_error_ex (vs1 ++ vs2) i) as [x Hx]; [apply nth_error_some_lt in Hi; clear - Hi Hlene; lia|].
+    apply (seen_after_in _ _ [] (lift (fd', (x, fbody p fd' x)))).
+    + apply in_map. apply sorted_has with (i := i); try assumption.
+      intros fd0 Hfd0. destruct (Forall2_in_l _ _ _ _ HFe Hfd0) as [b [Hb _]]. clear - Hb. lia.
+    + unfold lift, g_fd, g_x. cbn [fst snd]. pose proof (Forall2_nth_error _ _ _ _ _ _ HFe Hi Hx) as [_ [_ [_ [_ [Hrq _]]]]].
+      unfold fskip. rewrite Er, (Hrq Er). reflexivity.
+    + apply in_map. exact Hfd'.
+  - rewrite !tnorm_struct_eq. f_equal. apply cur_norm_split; apply fgood_norm; assumption.
+Qed.
+
+(* ====================================================================== *)
+(* ---------- C08: a declared field carrying a different wire type ---------- *)
+Lemma widen_spec3 f p fs vs es xs flags rest :
+  NoDup (map fld_id fs) -> (forall y, In y (map fld_id fs) -> 1 <= y) -> length vs = length fs ->
+  NoDup (map fld_id es) -> Forall2 fgood es xs ->
+  (forall i fd, nth_error es i = Some fd ->
+     (exists j, nth_error fs j = Some fd /\ nth_error vs j = nth_error xs i) \/ ~ In (fld_id fd) (map fld_id fs) \/
+     (exists j fd' x0, nth_error fs j = Some fd' /\ fld_id fd' = fld_id fd /\ nth_error vs j = Some x0 /\ fskip fd' x0 = true /\
+                       type_of (fld_ty fd') <> type_of (fld_ty fd))) ->
+  (length (enc p (ThStruct es) (TvStruct xs)) + fdepth es <= f)%nat ->
+  sloop f p fs flags f (enc p (ThStruct es) (TvStruct xs) ++ rest) 0 0
+        (cur_of (map eid (sort_by_id (mk_encs p es xs))) fs vs) [] =
+  if has_flag flags f_strict && existsb (is_conflict fs) (map lift (sort_by_id (mk_encs p es xs))) then TErr EMismatch else
+  if smissing fs (seen_after fs (map lift (sort_by_id (mk_encs p es xs))) []) then TErr EMissing
+  else TOk (TvStruct (cur_of [] fs vs), rest).
+Proof.
+  intros Hnd Hids Hlen Hnde HF Hcase Hf.
+  assert (Hlene : length xs = length es) by (symmetry; eapply Forall2_len; eauto).
+  assert (Hide : forall fd, In fd es -> 1 <= fld_id fd < 2 ^ 15) by (intros fd Hfd; destruct (Forall2_in_l _ _ _ _ HF Hfd) as [b [Hb _]]; lia).
+  destruct (sort_by_id_spec (mk_encs p es xs) 0) as [Hasc Hin].
+  { rewrite mk_encs_ids by exact Hlene. exact Hnde. }
+  { intros e He. destruct (mk_encs_in p es xs e He) as [i [Hi _]]. unfold eid. apply nth_error_In in Hi. specialize (Hide _ Hi). lia. }
+  assert (Hlt : forall e, In e (sort_by_id (mk_encs p es xs)) -> eid e < 2 ^ 15).
+  { intros e He. apply Hin in He. destruct (mk_encs_in p es xs e He) as [i [Hi _]]. apply nth_error_In in Hi. specialize (Hide _ Hi). unfold eid. lia. }
+  rewrite enc_struct_eq in *.
+  rewrite (enc_go_gen p (sort_by_id (mk_encs p es xs)) 0 ltac:(lia) Hasc Hlt) in Hf |- *.
+  rewrite <- (lift_eid (sort_by_id (mk_encs p es xs))).
+  apply (sloop_gen3 f p fs vs flags Hnd Hids); try lia.
+  - intros e He. apply in_map_iff in He. destruct He as [e0 [<- He0]]. pose proof He0 as He1. apply Hin in He1.
+    destruct (mk_encs_in p es xs e0 He1) as [i [Hi1 [Hi2 Hi3]]].
+    pose proof (Forall2_nth_error _ _ _ _ _ _ HF Hi1 Hi2) as Hg.
+    assert (Hbody : fskip (fst e0) (fst (snd e0)) = false -> coalesce p (type_of (fld_ty (fst e0))) = false ->
+              nilp (fst (snd e0)) = false /\ (length (fbody p (fst e0) (fst (snd e0))) + tdepth (fld_ty (fst e0)) <= f)%nat).
+    { intros Hs Hc. split; [unfold fskip in Hs; apply orb_false_elim in Hs; apply Hs|].
+      pose proof (gen_go_body_len p _ 0 (lift e0) (in_map lift _ _ He0) Hs Hc) as Hbl.
+      unfold lift at 1, g_body in Hbl. cbn [fst snd] in Hbl. rewrite Hi3 in Hbl.
+      assert ((tdepth (fld_ty (fst e0)) <= fdepth es)%nat).
+      { clear - Hi1. apply nth_error_In in Hi1. induction es as [|a r IH]; [contradiction|]. rewrite fdepth_cons.
+        destruct Hi1 as [->|Hi1]; [lia | specialize (IH Hi1); lia]. }
+      lia. }
+    assert (Hidr : 1 <= fld_id (fst e0) < 2 ^ 15) by (apply Hide; eapply nth_error_In; eauto).
+    unfold gentry_ok, gconflict_ok, lift, g_fd, g_x, g_body. cbn [fst snd].
+    destruct (Hcase i _ Hi1) as [[j [Hj1 Hj2]]|[Hnin|[j [fd' [x0 [Hj1 [Hjeq [Hj2 [Hjs Hjt]]]]]]]]].
+    + left. split; [exact Hidr|]. left. exists j. split; [exact Hj1|]. split; [rewrite Hj2; exact Hi2|].
+      intros Hs. pose proof Hg as [Hid [Hokt [Hwft Hrest]]]. split; [exact Hokt|]. split; [exact Hwft|].
+      intros Hc fl rest0. destruct (Hbody Hs Hc) as [Hnil Hfl]. rewrite Hi3.
+      apply (rspec_full _ _ _ rest0). apply fdec_spec; assumption.
+    + left. split; [exact Hidr|]. right. split; [exact Hnin|]. intros Hs Hc rest0. destruct (Hbody Hs Hc) as [Hnil Hfl]. rewrite Hi3.
+      apply fbody_skip; try assumption. apply skip_all.
+    + right. split; [exact Hidr|]. exists j, fd', x0. repeat split; try assumption.
+      intros Hs Hc rest0. destruct (Hbody Hs Hc) as [Hnil Hfl]. rewrite Hi3.
+      apply fbody_skip; try assumption. apply skip_all.
+  - rewrite lift_eid. exact Hasc.
+Qed.
+
+Lemma replace_case {A B} (fs1 fs2 : list A) (fd fd' : A) (vs1 vs2 : list B) (x x0 : B) i a : length vs1 = length fs1 ->
+  nth_error (fs1 ++ fd' :: fs2) i = Some a -> i <> length fs1 ->
+  nth_error (fs1 ++ fd :: fs2) i = Some a /\ nth_error (vs1 ++ x0 :: vs2) i = nth_error (vs1 ++ x :: vs2) i.
+Proof.
+  intros Hl Hi Hne. destruct (Nat.ltb_spec i (length fs1)) as [Hlt|Hge].
+  - rewrite nth_error_app1 in Hi by lia. rewrite !nth_error_app1 by lia. split; [exact Hi | reflexivity].
+  - rewrite nth_error_app2 in Hi by lia. rewrite !nth_error_app2 by lia.
+    destruct (i - length fs1)%nat as [|m] eqn:Em; [lia|]. replace (i - length vs1)%nat with (S m) by lia.
+    cbn [nth_error] in *. split; [exact Hi | reflexivity].
+Qed.
+
+Lemma conflict_setup p fs1 id fl fl' ft ft' fs2 vs1 x vs2 f flags rest :
+  ty_ok (ThStruct (fs1 ++ TField id fl ft :: fs2)) = true -> ty_ok (ThStruct (fs1 ++ TField id fl' ft' :: fs2)) = true ->
+  type_of ft' <> type_of ft -> length vs1 = length fs1 ->
+  tval_wf (ThStruct (fs1 ++ TField id fl' ft' :: fs2)) (TvStruct (vs1 ++ x :: vs2)) = true ->
+  (length (enc p (ThStruct (fs1 ++ TField id fl' ft' :: fs2)) (TvStruct (vs1 ++ x :: vs2))) + fdepth (fs1 ++ TField id fl' ft' :: fs2) <= f)%nat ->
+  let fs := fs1 ++ TField id fl ft :: fs2 in let vs := vs1 ++ TvPtr None :: vs2 in
+  let l := map lift (sort_by_id (mk_encs p (fs1 ++ TField id fl' ft' :: fs2) (vs1 ++ x :: vs2))) in
+  sloop f p fs flags f (enc p (ThStruct (fs1 ++ TField id fl' ft' :: fs2)) (TvStruct (vs1 ++ x :: vs2)) ++ rest) 0 0 (zero_fields fs) [] =
+  (if has_flag flags f_strict && existsb (is_conflict fs) l then TErr EMismatch else
+   if smissing fs (seen_after fs l []) then TErr EMissing else TOk (TvStruct (cur_of [] fs vs), rest)) /\
+  In (lift (TField id fl' ft', (x, fbody p (TField id fl' ft') x))) l /\
+  (forall fd0, In fd0 fs -> fld_id fd0 <> id -> exists x0, In (lift (fd0, (x0, fbody p fd0 x0))) l /\ (has_flag (fld_flags fd0) f_required = true -> fskip fd0 x0 = false)).
+Proof.
+  intros Hok Hoke Htne Hlen Hwf Hf fs vs l.
+  destruct (struct_good _ _ Hoke Hwf (all_mainP _)) as [Hnde HFe].
+  assert (Hlene : length (vs1 ++ x :: vs2) = length (fs1 ++ TField id fl' ft' :: fs2)) by (symmetry; eapply Forall2_len; eauto).
+  assert (Hlenv : length vs = length fs) by (unfold vs, fs; rewrite !app_length in *; cbn [length] in *; lia).
+  rewrite ProofsA.ok_struct in Hok. apply andb_true_iff in Hok. destruct Hok as [Hd Hfok].
+  pose proof (distinctZ_NoDup _ Hd) as Hnd.
+  assert (Hids : forall y, In y (map fld_id fs) -> 1 <= y).
+  { intros y Hy. apply in_map_iff in Hy. destruct Hy as [fd' [<- Hfd']]. pose proof (ProofsA.fok_range fs fd' Hfok Hfd'). lia. }
+  assert (Hide : forall fd', In fd' (fs1 ++ TField id fl' ft' :: fs2) -> 1 <= fld_id fd') by (intros fd' Hfd'; destruct (Forall2_in_l _ _ _ _ HFe Hfd') as [b [Hb _]]; lia).
+  pose proof (@nth_error_mid) as Hmid.
+  split; [|split].
+  - rewrite <- (cur_of_all2 (map eid (sort_by_id (mk_encs p (fs1 ++ TField id fl' ft' :: fs2) (vs1 ++ x :: vs2)))) fs vs Hlenv).
+    + apply (widen_spec3 f p fs vs _ _ flags rest Hnd Hids Hlenv Hnde HFe); [|exact Hf].
+      intros i a Hi. destruct (Nat.eq_dec i (length fs1)) as [->|Hne].
+      * right. right. rewrite Hmid in Hi. inversion Hi; subst a.
+        exists (length fs1), (TField id fl ft), (TvPtr None). unfold fs, vs. rewrite Hmid. rewrite <- Hlen. rewrite Hmid.
+        repeat split. cbn [fld_ty]. congruence.
+      * left. destruct (replace_case fs1 fs2 (TField id fl ft) (TField id fl' ft') vs1 vs2 x (TvPtr None) i a Hlen Hi Hne) as [H1 H2].
+        exists i. split; assumption.
+    + intros j fd' y Hj Hy. destruct (Nat.eq_dec j (length fs1)) as [->|Hne].
+      * right. unfold vs in Hy. rewrite <- Hlen in Hy. rewrite Hmid in Hy. inversion Hy; subst y. reflexivity.
+      * left. destruct (replace_case fs1 fs2 (TField id fl' ft') (TField id fl ft) vs1 vs2 (TvPtr None) x j fd' Hlen Hj Hne) as [H1 H2].
+        unfold vs in Hy. rewrite <- H2 in Hy.
+        apply (in_map eid _ (fd', (y, fbody p fd' y))). apply sorted_has with (i := j); assumption.
+  - apply in_map. apply sorted_has with (i := length fs1); try assumption; [apply Hmid | rewrite <- Hlen; apply Hmid].
+  - intros fd0 Hfd0 Hne0. apply In_nth_error in Hfd0. destruct Hfd0 as [j Hj].
+    assert (Hjne : j <> length fs1).
+    { intros ->. unfold fs in Hj. rewrite Hmid in Hj. inversion Hj; subst fd0. apply Hne0. reflexivity. }
+    destruct (replace_case fs1 fs2 (TField id fl' ft') (TField id fl ft) vs1 vs2 (TvPtr None) x j fd0 Hlen Hj Hjne) as [H1 _].
+    destruct (nth_error_ex (vs1 ++ x :: vs2) j) as [x0 Hx0]; [apply nth_error_some_lt in H1; clear - H1 Hlene; lia|].
+    exists x0. split; [apply in_map; apply sorted_has with (i := j); assumption|].
+    intros Er. pose proof (Forall2_nth_error _ _ _ _ _ _ HFe H1 Hx0) as [_ [_ [_ [_ [Hrq _]]]]]. unfold fskip. rewrite Er, (Hrq Er). reflexivity.
+Qed.
+
+Lemma conflict_fuel p E xs T T' fuel : (length (TMarshal p (ThStruct E) xs) + tdepth (ThStruct T) + tdepth (ThStruct T') <= fuel)%nat ->
+  tdepth (ThStruct T') = S (fdepth T') -> exists f, fuel = S f /\ (length (enc p (ThStruct E) xs) + fdepth T' <= f)%nat.
+Proof. intros H H'. unfold TMarshal in H. destruct fuel as [|f]; [lia|]. exists f. split; [reflexivity | lia]. Qed.
+
+Lemma t_mismatch_strict : t_mismatch_strict_statement.
+Proof.
+  intros p fs1 id fl fl' ft ft' fs2 vs1 x vs2 fuel Hok Hoke Htne Hlen Hwf Hom Hf.
+  destruct (conflict_fuel _ _ _ _ _ _ Hf (tdepth_struct_eq _)) as [f [-> Hf']].
+  unfold TDecode, TMarshal. rewrite dec_struct_eq, zero_struct_eq. rewrite <- (app_nil_r (enc p _ _)).
+  destruct (conflict_setup p fs1 id fl fl' ft ft' fs2 vs1 x vs2 f f_strict [] Hok Hoke Htne Hlen Hwf Hf') as [-> [Hin _]].
+  replace (has_flag f_strict f_strict) with true by reflexivity. cbn [andb].
+  replace (existsb _ _) with true; [reflexivity|]. symmetry. apply existsb_exists. eexists. split; [exact Hin|].
+  unfold is_conflict, lift, g_fd, g_x. cbn [fst snd]. change (fskip (TField id fl' ft') x) with (field_omitted (TField id fl' ft') x).
+  rewrite Hom. cbn [negb andb]. apply existsb_exists. exists (TField id fl ft). split; [apply in_or_app; right; left; reflexivity|].
+  cbn [fld_id fld_ty]. rewrite Z.eqb_refl. cbn [andb]. apply negb_true_iff. apply Z.eqb_neq. congruence.
+Qed.
+
+Lemma t_mismatch_skipped : t_mismatch_skipped_statement.
+Proof.
+  intros p fs1 id fl fl' ft ft' fs2 vs1 x vs2 fuel Hok Hoke Htne Hlen Hwf Hom Hf.
+  destruct (conflict_fuel _ _ _ _ _ _ Hf (tdepth_struct_eq _)) as [f [-> Hf']].
+  pose proof Hwf as Hwf'. rewrite wf_struct_eq in Hwf'. destruct (wf_fields_app fs1 _ vs1 _ Hlen Hwf') as [Hwf1 Hwf2].
+  cbn [wf_fields] in Hwf2. apply andb_true_iff in Hwf2. destruct Hwf2 as [_ Hwf2]. rewrite <- wf_struct_eq in Hwf1, Hwf2.
+  destruct (ty_ok_struct_app fs1 _ Hok) as [Hok1 Hok2].
+  assert (Hok2' : ty_ok (ThStruct fs2) = true) by (apply (ty_ok_struct_app [TField id fl ft] fs2 Hok2)).
+  destruct (struct_good fs1 vs1 Hok1 Hwf1 (all_mainP _)) as [_ HF1].
+  destruct (struct_good fs2 vs2 Hok2' Hwf2 (all_mainP _)) as [_ HF2].
+  exists (TvStruct (cur_of [] (fs1 ++ TField id fl ft :: fs2) (vs1 ++ TvPtr None :: vs2))). split.
+  - unfold TDecode, TMarshal. rewrite dec_struct_eq, zero_struct_eq. rewrite <- (app_nil_r (enc p _ _)).
+    destruct (conflict_setup p fs1 id fl fl' ft ft' fs2 vs1 x vs2 f 0 [] Hok Hoke Htne Hlen Hwf Hf') as [-> [Hin Hothers]].
+    replace (has_flag 0 f_strict) with false by reflexivity. cbn [andb].
+    rewrite smissing_false; [reflexivity|]. intros fd0 Hfd0 Er.
+    destruct (Z.eq_dec (fld_id fd0) id) as [Heq|Hne].
+    + assert (fd0 = TField id fl ft).
+      { rewrite ProofsA.ok_struct in Hok. apply andb_true_iff in Hok. destruct Hok as [Hd _]. pose proof (distinctZ_NoDup _ Hd) as Hnd.
+        apply In_nth_error in Hfd0. destruct Hfd0 as [j Hj].
+        pose proof (nth_error_mid fs1 fs2 (TField id fl ft)) as Hm.
+        pose proof (NoDup_uniq _ _ _ Hnd Hm j fd0 Hj Heq). subst j. rewrite Hm in Hj. inversion Hj. reflexivity. }
+      subst fd0. cbn [fld_flags fld_id] in *.
+      apply (seen_after_in _ _ [] _ Hin); [exact (Hom Er) | exact (in_map fld_id _ _ Hfd0)].
+    + destruct (Hothers fd0 Hfd0 Hne) as [x0 [Hx0 Hs0]].
+      apply (seen_after_in _ _ [] _ Hx0); [exact (Hs0 Er) | apply in_map; exact Hfd0].
+  - rewrite !tnorm_struct_eq. f_equal. apply (cur_norm_split fs1 (TField id fl ft) fs2); apply fgood_norm; assumption.
+Qed.
+
+(* ---------- the items of a list ---------- *)
+Lemma skip_items_eq f p et n r : skip_items f p et n r = ProofsA.sk_list (skip f p) et (S (length r)) n r.
+Proof. reflexivity. Qed.
+Lemma t_mismatch_list : t_mismatch_list_statement.
+Proof.
+  intros p et et' v old flags fuel rest Hok Hwf Htne Hf. unfold TMarshal in *. destruct v; try discriminate Hwf.
+  destruct fuel as [|f]; [cbn [tdepth] in Hf; lia|]. cbn [ty_ok] in Hok. apply wf_list_inv in Hwf. destruct Hwf as [Hlen HF].
+  rewrite dec_list_eq, enc_list_eq in *. rewrite <- app_assoc. pose proof (type_of_range et') as Hty. unfold tlim in Hlen.
+  rewrite (rspec_full _ _ _ _ (r_list_spec p (len es) (type_of et') ltac:(unfold len in *; lia) ltac:(lia))). cbn [tbind].
+  cbv zeta. replace (type_of et' =? c_TRUE) with false by (unfold c_TRUE; lia).
+  replace (type_of et =? type_of et') with false by (symmetry; apply Z.eqb_neq; congruence). cbn [negb].
+  destruct (has_flag flags f_strict); [reflexivity|].
+  rewrite skip_items_eq. rewrite app_length in Hf. cbn [tdepth] in Hf.
+  rewrite (sk_list_spec f p et' (skip_all et') Hok es HF); [reflexivity | lia | rewrite app_length; lia].
+Qed.
